@@ -133,7 +133,7 @@ package db
 //@ func (*db.Database).resolveDirty
 //@   props C08 C15 C09
 //@   opt no-type-invariant=db.Database
-//@   modifies * -M:S_db_KeyCol hdr_valid hdr_ps hdr_cookie
+//@   modifies * -M:S_db_KeyCol hdr_valid hdr_ps hdr_cookie jr_pos
 //@   requires db != nil && db.l != nil && db.btreeCache != nil && db.btreeCache.elem != nil
 //@   requires db.header != nil ==> CACHE_OK(db) && legal_ps(db.header.PageSize)
 //@   requires db.header == nil ==> db.dirty && (forall q int :: !has(db.btreeCache.elem, q))
@@ -141,6 +141,7 @@ package db
 //@   ensures [clean] err == nil ==> !db.dirty && db.header != nil && db.header.ChangeCounter == cc_now
 //@   ensures [validated] err == nil ==> hdr_valid
 //@   ensures [handles] db.l == old(db.l)
+//@   ensures [hot] JR_ENV() && old(db.dirty) && old(db.journal) != "" && jr_exists && jrnl_hot(jr_bytes, jr_len) && peer_state < 2 ==> err != nil
 //@   ensures [current] err == nil && old(db.dirty) ==> db.header.ChangeCounter == cc_now && legal_ps(db.header.PageSize)
 //@   ensures [untouched] err == nil && !old(db.dirty) ==> db.header == old(db.header)
 //@   ensures [cache] err == nil ==> db.btreeCache != nil && db.btreeCache.elem != nil && CACHE_OK(db)
